@@ -13,6 +13,11 @@ CHECKS = {
             'Random search (Hypothesis, seeded, sharded over 16 processes) over texts with all eight line-break forms, files read in reverse at block sizes 1..len+1, and JSON Lines files with records placed around the 4096-byte block edge; each case is compared with an independent reference (str.splitlines / bytes.splitlines / json.loads of the good lines). Exploration is the right level: the domain is unbounded text, failures are input-shape dependent (break adjacency, block edge inside a multi-byte char) and the generator is biased to exactly those shapes; label counts in the evidence show they are reached.',
             'Trusts CPython str.splitlines/bytes.splitlines/json as oracles; lone \\r and \\x1c-\\x1e are outside the generated domain (not in the statement).',
             'DESIGN.md section 2, C19'),
+    'C01': ('exploration',
+            'model-based testing: Hypothesis-generated operation histories run in lock-step against a list-of-pairs reference model, all reads compared after every step',
+            'Random histories (constructor form + up to 25/40 operations incl. one-shot iterators, update forms, |=, pops, popitem, copy/deepcopy/pickle replacing the object under test) over a pool of colliding keys; after every step ~45 reads (items/keys/values multi on/off, get/getlist/[]/in for every pool key, reversed, todict, counts, inverted, sorted, sortedvalues, views, repr, ==/!= against 10 perturbed OMDs and dicts) are compared with an independent PairList model. Exploration is the right level for an unbounded history space; key/value pools are small so collisions and multi-value keys dominate.',
+            'Trusts the 60-line PairList model; popitem is only loosely constrained; update_extend(self) and NaN keys not generated; FastIterOrderedMultiDict out of scope.',
+            'DESIGN.md section 2, C01'),
 }
 
 NOT_YET = 'check not built yet in this revision of /verif (work in progress; see DESIGN.md section 8)'
